@@ -377,18 +377,21 @@ def apply_splices(body, splices, log, what):
             body = "{\n" + sp["text"].rstrip("\n") + "\n" + body[1:].lstrip("\n")
             log.append("splice ghost/proof block at the start of the body")
             continue
-        rx = re.compile(sp["after"], re.M)
+        anchor = sp.get("after") or sp["before"]
+        rx = re.compile(anchor, re.M)
         m = rx.search(body)
         if not m:
-            raise AnchorLost("splice anchor %r lost in %s" % (sp["after"], what))
+            raise AnchorLost("splice anchor %r lost in %s" % (anchor, what))
         eol = body.find("\n", m.end())
         if sp.get("inline"):
             eol = m.end() - 1
+        if "before" in sp:                                # the line before the one holding the anchored statement
+            eol = body.rfind("\n", 0, m.start())
         txt = sp["text"]
         for gi in range(1, (m.lastindex or 0) + 1):      # rename-tolerant hints: {g1}, {g2} = names bound / used in the anchored statement
             txt = txt.replace("{g%d}" % gi, m.group(gi) or "")
         body = body[:eol + 1] + txt.rstrip("\n") + "\n" + body[eol + 1:]
-        log.append("splice proof block after /%s/" % sp["after"])
+        log.append("splice proof block %s /%s/" % ("before" if "before" in sp else "after", anchor))
     return body
 
 
@@ -425,6 +428,9 @@ def contract_fn(text, opts, log, what):
 
 # ----------------------------------------------------------------------------- driver
 
+EXPANDED_PATH = None   # set by verus_run: the macro-expanded source of the tree under check (R13)
+
+
 def load_unit(path):
     spec = importlib.util.spec_from_file_location("unit", path)
     mod = importlib.util.module_from_spec(spec)
@@ -437,7 +443,7 @@ def extract(unit, repo, verus_dir):
 
     def load(rel):
         if rel not in cache:
-            p = os.path.join(repo, rel)
+            p = EXPANDED_PATH if rel == "@expanded" else rel if os.path.isabs(rel) else os.path.join(repo, rel)
             if not os.path.exists(p):
                 raise AnchorLost("file %s missing" % rel)
             s = open(p).read()
@@ -537,6 +543,50 @@ def extract(unit, repo, verus_dir):
             log.append("R8 trait-impl method `%s` lifted to free fn `%s` (body verbatim)" % (name, it["as"]))
             new = contract_fn(txt, it, log, what)
             functions.append((it["as"], it["file"], bool(it.get("contract")), bool(it.get("external_body"))))
+        elif kind == "derived":
+            # R13: a nom-derive generated `parse_be` taken from the MACRO-EXPANDED crate source (cargo +nightly rustc
+            # -Zunpretty=expanded, regenerated on every run), lifted to a free fn `parse_be_<T>`; fully qualified nom paths
+            # are shortened to the shim's names, `<X>::parse_be(i)` becomes `parse_be_X(i)`, 'nom is merged into 'a, and an
+            # immediately applied closure `({ |i| e })(i)` is beta-reduced to `e` (R14).
+            T = name
+            rx = re.compile(r"^[ \t]*impl<[^>]*>\s*(?:nom_derive::Parse<[^{]*?>\s*for\s*)?%s(<'a>)?\s*(?:where[^{]*)?\{" % re.escape(T), re.M)
+            hm = None
+            for cand in rx.finditer(masked):
+                b0 = masked.index("{", cand.end() - 1)
+                e0 = match_close(masked, b0)
+                if re.search(r"\bfn\s+parse_be\b", masked[b0:e0]):
+                    hm = (cand, b0, e0)
+                    break
+            if not hm:
+                raise AnchorLost("derived parser impl for %s not found in the expanded source" % T)
+            cand, b0, e0 = hm
+            lt = "<'a>" if cand.group(1) else ""
+            s0, kw, pe, bb, e1 = slice_fn(src, masked, "parse_be", within=(b0, e0))
+            start = s0
+            orig = src[s0:e1]
+            body = src[bb:e1]
+            sig = src[kw:bb]
+            selector = re.search(r"selector:\s*(\w+)", sig)
+            # `T::parse` must be the generated delegation to `parse_be` (call sites of `T::parse` in hand-written code are
+            # rewritten to `parse_be_T` on the strength of this)
+            try:
+                _p0, _pk, _pp, pbb, pe1 = slice_fn(src, masked, "parse", within=(b0, e0))
+                pbody = re.sub(r"\s+", "", src[pbb:pe1])
+            except AnchorLost:
+                pbody = ""
+            if pbody not in ("{Self::parse_be(orig_i)}", "{Self::parse_be(orig_i,selector)}"):
+                raise AnchorLost("`%s::parse` is not the generated delegation to parse_be: %r" % (T, pbody[:80]))
+            txt = body
+            txt = re.sub(r"\(\{\s*\|i\|\s*(.*?)\s*\}\)\(i\)\?", r"\1?", txt, flags=re.S)                 # R14
+            txt = re.sub(r"<(\w+)(?:<'a>)?>::parse_be\(", r"parse_be_\1(", txt)
+            txt = re.sub(r"\b(\w+)::parse\(i,\s*(\w+)\)", r"parse_be_\1(i, \2)", txt)
+            txt = txt.replace("::nom::error::make_error", "make_error").replace("nom::error::ErrorKind::", "ErrorKind::").replace("nom::Err::", "Err::")
+            new_sig = "pub fn parse_be_%s<'a>(orig_i: &'a [u8]%s) -> IResult<&'a [u8], %s%s>\n" % (
+                T, (", selector: %s" % selector.group(1)) if selector else "", T, lt)
+            log.append("R13 derived parse_be of %s lifted from the macro expansion; R14 where an applied closure was reduced" % T)
+            new = contract_fn(new_sig + txt, it, log, what)
+            new = "\n".join(l[8:] if l.startswith("        ") else l for l in new.split("\n"))
+            functions.append(("parse_be_" + T, it["file"], bool(it.get("contract")), bool(it.get("external_body"))))
         elif kind == "newtype_enum":
             start, end, consts = slice_newtype_enum(src, masked, name)
             orig = src[start:end]
